@@ -62,6 +62,9 @@ snoopy_tsrm_threadId_t      snoopy_tsrm_getCurrentThreadId        ();
 listNode_t*                 snoopy_tsrm_getCurrentThreadRepoEntry ();
 snoopy_tsrm_threadData_t*   snoopy_tsrm_getCurrentThreadData      ();
 snoopy_tsrm_threadData_t*   snoopy_tsrm_createNewThreadData       (snoopy_tsrm_threadId_t threadId);
+static void                 snoopy_tsrm_atfork_prepare            ();
+static void                 snoopy_tsrm_atfork_parent             ();
+static void                 snoopy_tsrm_atfork_child              ();
 
 
 
@@ -165,6 +168,59 @@ void snoopy_tsrm_init ()
     pthread_mutexattr_init   (&snoopy_tsrm_threadRepo_mutexAttr);
     pthread_mutexattr_settype(&snoopy_tsrm_threadRepo_mutexAttr, PTHREAD_MUTEX_RECURSIVE);
     pthread_mutex_init       (&snoopy_tsrm_threadRepo_mutex, &snoopy_tsrm_threadRepo_mutexAttr);
+
+    // Keep fork() from copying the mutex while another thread owns it
+    pthread_atfork(&snoopy_tsrm_atfork_prepare, &snoopy_tsrm_atfork_parent, &snoopy_tsrm_atfork_child);
+}
+
+
+
+/*
+ * snoopy_tsrm_atfork_prepare / _parent / _child
+ *
+ * Description:
+ *     fork() handlers. A child of a multithreaded process contains only the
+ *     forking thread, but it inherits the threadRepo mutex in whatever state
+ *     it was at that instant. If another thread was inside Snoopy holding the
+ *     mutex, the child's first execve() would block on it forever.
+ *
+ *     Therefore: take the mutex before the fork (no other thread can own it
+ *     while the memory is copied), release it again in the parent, and in the
+ *     child start over with a fresh mutex and an empty thread repository (the
+ *     threads the copied entries belong to do not exist there).
+ *
+ * Params:
+ *     (none)
+ *
+ * Return:
+ *     void
+ */
+static void snoopy_tsrm_atfork_prepare ()
+{
+    pthread_mutex_lock(&snoopy_tsrm_threadRepo_mutex);
+}
+
+static void snoopy_tsrm_atfork_parent ()
+{
+    pthread_mutex_unlock(&snoopy_tsrm_threadRepo_mutex);
+}
+
+static void snoopy_tsrm_atfork_child ()
+{
+    listNode_t * curNode;
+
+    // Entries of threads that only exist in the parent
+    while (NULL != (curNode = snoopy_tsrm_threadRepo->first)) {
+        snoopy_tsrm_threadData_t * tData = snoopy_util_list_remove(snoopy_tsrm_threadRepo, curNode);
+        if (NULL != tData) {
+            free(tData->inputdatastorage);
+            free(tData->configuration);
+            free(tData);
+        }
+    }
+
+    // The mutex was locked by the forking thread in the parent - start afresh
+    pthread_mutex_init(&snoopy_tsrm_threadRepo_mutex, &snoopy_tsrm_threadRepo_mutexAttr);
 }
 
 
